@@ -211,6 +211,17 @@ theorem entry_unique {l : List (Conn × Nat)} (h : PeerIdsDistinct l) {p q : Con
     (hp : p ∈ l) (hq : q ∈ l) (hid : p.1.id = q.1.id) : p = q :=
   eq_of_nodup_map (·.1.id) l h.ids p hp q hq hid
 
+/-- in a configuration with distinct ids an id has one definition only -/
+theorem conn_unique {conns : List Conn} (h : IdsDistinct conns) {c c' : Conn} (hc : c ∈ conns) (hc' : c' ∈ conns)
+    (hid : c.id = c'.id) : c = c' :=
+  eq_of_nodup_map (fun x : Conn => x.id) conns h c hc c' hc' hid
+
+theorem conns_nodup {conns : List Conn} (h : IdsDistinct conns) : conns.Nodup :=
+  nodup_of_nodup_map (fun x : Conn => x.id) conns h
+
+theorem peers_nodup {old : List (Conn × Nat)} (h : PeerIdsDistinct old) : old.Nodup :=
+  nodup_of_nodup_map (fun x : Conn × Nat => x.1.id) old h.ids
+
 /-! ## counting one reload -/
 
 /-- the generation numbers of the kept peers of a plan, in plan order -/
@@ -265,6 +276,10 @@ theorem lookup_isNone_eq {old : List (Conn × Nat)} (hd : PeerIdsDistinct old) (
 def stoppedPeers (old : List (Conn × Nat)) (conns : List Conn) : List (Conn × Nat) :=
   old.filter (fun p => !conns.contains p.1)
 
+theorem mem_stoppedPeers (old : List (Conn × Nat)) (conns : List Conn) (p : Conn × Nat) :
+    p ∈ stoppedPeers old conns ↔ p ∈ old ∧ p.1 ∉ conns := by
+  simp [stoppedPeers]
+
 /-- the peers of the old map that stay -/
 def stayingPeers (old : List (Conn × Nat)) (conns : List Conn) : List (Conn × Nat) :=
   old.filter (fun p => conns.contains p.1)
@@ -307,6 +322,56 @@ theorem filter_isNone_of_subset {old : List (Conn × Nat)} (hd : PeerIdsDistinct
   intro c hc
   rw [lookup_isNone_eq hd]
   simp [hsub c hc]
+
+theorem length_filter_add_not {α : Type} (p : α → Bool) (l : List α) :
+    (l.filter p).length + (l.filter (fun a => !p a)).length = l.length := by
+  induction l with
+  | nil => rfl
+  | cons a t ih =>
+    simp only [List.filter_cons]
+    cases p a <;> simp only [Bool.not_false, Bool.not_true, if_true, Bool.false_eq_true, if_false,
+      List.length_cons] <;> omega
+
+
+/-- the staying peers and the kept decisions are the same connections -/
+theorem staying_length_eq {old : List (Conn × Nat)} {conns : List Conn} (hids : PeerIdsDistinct old)
+    (hconns : IdsDistinct conns) :
+    (stayingPeers old conns).length = (conns.filter (fun c => (old.map (·.1)).contains c)).length := by
+  have hn1 : ((stayingPeers old conns).map (·.1)).Nodup := by
+    have hsub : ((stayingPeers old conns).map (·.1)).Sublist (old.map (·.1)) :=
+      (List.filter_sublist (l := old)).map _
+    have hids' : IdsDistinct (old.map (fun p : Conn × Nat => p.1)) := hids
+    exact (conns_nodup hids').sublist hsub
+  have hn2 : (conns.filter (fun c => (old.map (·.1)).contains c)).Nodup :=
+    (conns_nodup hconns).sublist List.filter_sublist
+  have hperm : ((stayingPeers old conns).map (·.1)).Perm (conns.filter (fun c => (old.map (·.1)).contains c)) := by
+    rw [List.perm_ext_iff_of_nodup hn1 hn2]
+    intro c
+    simp only [stayingPeers, List.mem_map, List.mem_filter, List.contains_iff_mem]
+    constructor
+    · rintro ⟨p, ⟨hp, hc⟩, rfl⟩
+      exact ⟨hc, p, hp, rfl⟩
+    · rintro ⟨hc, p, hp, rfl⟩
+      exact ⟨p, ⟨hp, hc⟩, rfl⟩
+  have := hperm.length_eq
+  simpa using this
+
+
+/-- the number of peers every reload of a sequence creates, in order -/
+def createdPerReload (s : State) : List (List Conn) → List Nat
+  | [] => []
+  | conns :: rest => (createdGens (reloadPlan s.1 conns s.2).1).length :: createdPerReload (step s conns) rest
+
+theorem reloads_counter_eq (s : State) (cfgs : List (List Conn)) :
+    (reloads s cfgs).2 = s.2 + (createdPerReload s cfgs).sum := by
+  induction cfgs generalizing s with
+  | nil => rfl
+  | cons c rest ih =>
+    rw [reloads_cons, ih, createdPerReload, List.sum_cons]
+    have : (step s c).2 = s.2 + (createdGens (reloadPlan s.1 c s.2).1).length := by
+      show (reloadPlan s.1 c s.2).2 = _
+      rw [created_length, plan_counter_eq]
+    omega
 
 /-! ## sequences of listener reloads -/
 
